@@ -28,7 +28,8 @@ class Check(Prop):
     RULE = ("cases = (source bytes, flags in {none, -i}); enumerated: every line prefix (with/without final newline) of a "
             "fixed subset of the golden corpus; generated: token/line prefixes, 1-3 stacked token mutations with a hostile "
             "dictionary, concatenated hostile fragments, raw bytes and unicode text, complete grammar-generated programs with their prefixes and "
-            "token mutants, cyclic hierarchies and value cycles. Oracle: real analysis rounds finish "
+            "token mutants, cyclic hierarchies and value cycles, calls of every method of the shipped configuration with 15 fixed argument lists "
+            "(enumerated) and with generated argument lists, on literal receivers and on parameters typed by a call site. Oracle: real analysis rounds finish "
             "without a Go panic/fatal error (exit 0, empty stderr on the real binary) and every stdout line matches "
             "<file>:::<row>:::msg or @<file>:::<row>:::... . Non-trivial = input not byte-identical to a corpus file and "
             ">= 5 tokens; distinct by SHA-1(input, flags).")
@@ -56,6 +57,11 @@ class Check(Prop):
         for p in chosen:
             for i, pre in enumerate(mutate.prefixes_of(p.l1)):
                 yield {"src": pre, "flags": ["-i"] if i % 2 else [], "origin": "enum-prefix:" + p.name}
+        # every method of the shipped configuration with 15 right and wrong argument lists (typed receiver, receiver typed through a
+        # parameter, with and without block): the configured-call paths (conditional returns, overloads, block parameters)
+        from .. import shipped
+        for i, src in enumerate(shipped.enumerated_programs(self.repo, per_program=12 if self.tier == "quick" else 6)):
+            yield {"src": src, "flags": ["-i"] if i % 3 == 0 else [], "origin": "shipped-calls"}
         if self.tier == "thorough":
             for p in self.progs:
                 yield {"src": p.l1, "flags": [], "origin": "corpus:" + p.name}
@@ -63,7 +69,7 @@ class Check(Prop):
 
     def strategy(self):
         texts = self.texts
-        from .. import rb
+        from .. import rb, shipped
         from .c02 import cyclic, value_cycles
         whole = rb.program(max_stmts=8, case_in=True, errors=0.15).map(lambda p: rb.render(p["tree"]))
         gen_texts = st.lists(whole, min_size=1, max_size=1).map(lambda xs: mutate.Texts(xs))
@@ -78,6 +84,7 @@ class Check(Prop):
             gen_texts.flatmap(mutate.prefix_of),               # what an editor sends while such a program is typed
             gen_texts.flatmap(mutate.mutated),                  # token mutants of generated programs
             cyclic(), value_cycles(),                           # cyclic hierarchies / value cycles (shared with C02)
+            shipped.strategy(self.repo),                        # calls of shipped configured methods with arbitrary argument lists
         )
         return st.fixed_dictionaries({"src": src, "flags": st.sampled_from([[], ["-i"]])})
 
